@@ -261,6 +261,9 @@ Fixpoint res_run_lines (pre : bool) (s : state) (ls : list (list Z)) : list (lis
 (* header line: [threads; variant] (variant 1 = the tree's code, 0 = pinned upstream) *)
 Definition res_run (case : list (list Z)) : list (list Z) :=
   match case with
-  | [n; v] :: ls => [] :: res_run_lines (negb (v =? 0)) (init (Z.to_nat n)) ls
+  | [n; v] :: ls | [n; v; _] :: ls =>
+      (* an optional third field tells the implementation side which threads hold a read lock on a second,
+         unrelated Resource throughout the case: instances are independent, the model is the same *)
+      [] :: res_run_lines (negb (v =? 0)) (init (Z.to_nat n)) ls
   | _ => [[PRE]]
   end.
